@@ -510,6 +510,12 @@ class Check:
         os.makedirs(ev_dir, exist_ok=True)
         rep_dir = os.path.join(ROOT, 'replays')
         os.makedirs(rep_dir, exist_ok=True)
+        # replay files of earlier runs of this property/tier/seed are stale now
+        for suffix in ('', '_broken'):
+            try:
+                os.unlink(os.path.join(rep_dir, '%s_%s_%d%s.json' % (self.prop, self.tier, self.seed, suffix)))
+            except OSError:
+                pass
         lines = []
         for kid, ex in sorted(self.known_seen.items()):
             txt = next((k['text'] for k in self.known if k['id'] == kid), '')
